@@ -17,6 +17,10 @@ class T:
         self.rec, self.enum, self.const_pointee = rec, enum, const_pointee
 
 
+NRH = T("vf_nrh_t", "fnptr", False, 64)
+NRH.decl = "void (*%s)(int) __attribute__((noreturn))"
+
+
 class Rec:
     def __init__(self, kw, name, fields):
         self.kw, self.name, self.fields = kw, name, fields   # fields: [(name, T, arraylen or None, bits or None)]
@@ -30,6 +34,7 @@ class Fn:
     def __init__(self, name, ret, params, variadic=False, attrs="", static=False):
         self.name, self.ret, self.params, self.variadic, self.attrs, self.static = name, ret, params, variadic, attrs, static
         self.cb = None
+        self.arrparam_ = False
 
 
 class Lib:
@@ -150,11 +155,17 @@ def generate(rng, nfn=None, static_only=False, cxx=False):
             fn.attrs = ' __asm__("%s")' % rng.choice(["renamed_%d" % i, "_under_%d" % i, "fn%d$x" % i, "_fn%d" % i, "_fn%d_v2" % i, "fn%d_tail" % i])
         elif x < 0.33:
             fn.arrparam = True
+            fn.arrparam_ = True
         elif x < 0.42 and not static_only and not cxx:
             # a second calling convention in the same header (extern "win64" blocks interleaved with extern "C" ones)
             fn.abi = "ms_abi"
             fn.name += "w"        # keeps it out of the reach of the --override-abi patterns (overriding a real convention is the user's lie, not bindgen's)
         fn.static = static_only or (rng.random() < 0.0)
+        if not fn.variadic and not fn.arrparam_ and not cxx and len(fn.params) < 8 and rng.random() < 0.12:
+            # a handler that does not return, its attribute spelled INSIDE the parameter list; the function that takes it does return.
+            # First, in the middle or last: what follows the attribute in the type's spelling differs.
+            fn.params.insert(rng.randint(0, len(fn.params)), NRH)
+            lib.uses_nrh = True
         if fn.params and not fn.cb and not fn.variadic and rng.random() < 0.3:
             fn.unnamed = set(j for j in range(len(fn.params)) if rng.random() < 0.5)
         lib.fns.append(fn)
@@ -192,7 +203,9 @@ def fn_proto(fn, lib, decl_only=False):
     ps = []
     for j, p in enumerate(fn.params):
         nm = "" if (decl_only and j in getattr(fn, "unnamed", ())) else "a%d" % j
-        if getattr(fn, "arrparam", False) and j == 0 and p.kind in ("int", "float"):
+        if getattr(p, "decl", None):
+            ps.append(p.decl % nm)
+        elif getattr(fn, "arrparam", False) and j == 0 and p.kind in ("int", "float"):
             ps.append("%s %s[4]" % (p.c, nm))
         else:
             ps.append(("%s %s" % (p.c, nm)).rstrip())
@@ -213,6 +226,8 @@ def header(lib, static_bodies=False, cxx=False):
         out.append("typedef %s %s;" % (b.c, n))
     for r in lib.recs:
         out.append(r.decl())
+    if getattr(lib, "uses_nrh", False):
+        out.append("typedef void (*vf_nrh_t)(int) __attribute__((noreturn));")
     for cb in lib.cbs:
         if cb[0] in lib.cb_fn_typedef:
             fname_ = cb[0][:-2] + "_f"
@@ -400,6 +415,8 @@ def impl_c(lib, header_name="h.h"):
                 return "enum/%d/%zu", ["(int)((%s)-1 < 0)" % t.c, "sizeof(%s)" % t.c]
             if t.kind == "bool":
                 return "bool/0/%zu", ["sizeof(%s)" % t.c]
+            if t.kind == "fnptr":
+                return "fnptr/0/%zu", ["sizeof(%s)" % t.c]
             if t.kind == "float":
                 return "float/1/%zu", ["sizeof(%s)" % t.c]
             return "int/%d/%%zu" % (1 if t.signed else 0), ["sizeof(%s)" % t.c]
